@@ -438,9 +438,7 @@ theorem readPart_eqP (m : AbstractModel) (p : Placement) (h : WFP m p = true)
   unfold readPart
   rw [idx_ok (decls_rowP m p i l hl d mesh hm), R.ok_bind, idx_ok (meshes_rowP m p i l hl d mesh hm),
     R.ok_bind, readVertices_eqP m p h i l hl d mesh hm (noWeightsByte4_mesh m hw hl hm), R.ok_bind,
-    idx3_ok hio, R.ok_bind, mulU32_ok _ _ (by rw [h2]; omega), R.ok_bind,
-    addU32_ok _ _ (by rw [hmul]; omega), R.ok_bind, hadd, hmul, hic,
-    Nat.mul_comm _ 2, hread]
+    idx3_ok hio, R.ok_bind, hic, Nat.mul_comm _ 2, hread]
   dsimp only
   rw [R.pure_eq, R.ok_bind, leU16s_flatMap_put, hsub, readSubmeshes_eq m W.wf i l hl d mesh hm,
     R.ok_bind, hshp, hsh, R.ok_bind, readStreams_eqP m p h i l hl d mesh hm, R.ok_bind]
